@@ -180,7 +180,7 @@ func init() {
 				// (b'') and under validation-error reporting, alone and with lax parsing: reporting records errors, it never changes a result
 				if want, ok, decided := expectSpecialHost(d, h); decided && !strings.ContainsAny(h, "/\\?#@:[] \t\n\r") &&
 					!strings.ContainsAny(asciiLower(pctDecode(h)), forbiddenDomain) && (i < total/8 || i >= total) {
-					for _, cd := range []string{"lax", "report", "lax+report"} {
+					for _, cd := range []string{"lax", "report", "lax+report", "fail", "fail+report"} {
 						if cd != "lax" && i < total && i%2 != 0 {
 							continue
 						}
@@ -189,6 +189,14 @@ func init() {
 						fam := "ipv4-api:" + cd
 						io := c.cmpParse(d, lax, nil, in, allButVerrs, true, fam, i)
 						cs3 := Case{Kind: "parse", Cfg: lax.Desc, Input: in, Family: fam, Index: i}
+						if strings.HasPrefix(cd, "fail") {
+							// fail-on-validation-error may reject more (a part written in hex or octal is a validation error), never
+							// accept more, and what it accepts is the same canonical host
+							if io.Kind == "U" && (!ok || io.Fields[fHostname] != want) {
+								c.Report(Finding{Class: "violation", What: fmt.Sprintf("under options %s, host %q of a special URL is accepted as %q; the standard %s", cd, h, io.Fields[fHostname], map[bool]string{true: "gives " + want, false: "rejects it"}[ok]), Case: cs3})
+							}
+							continue
+						}
 						if ok != (io.Kind == "U") {
 							c.Report(Finding{Class: "violation", What: fmt.Sprintf("under options %s, host %q of a special URL: implementation %s, the standard %s", cd, h, io.String(), map[bool]string{true: "accepts it as " + want, false: "rejects it"}[ok]), Case: cs3})
 						} else if ok && io.Fields[fHostname] != want {
